@@ -15,7 +15,8 @@ error, then closes the destination and stops; `BridgeConns` runs one relay per d
 a dial writes one zero byte, the listener reads and checks it — accepting it also when it arrives together
 with the end of the stream; `Conn.Close` closes the writing side of the stream only; `ReadFrom` copies the
 datagram's payload; both QUIC transports get a PacketConn that treats a momentarily missing next-hop
-connection as loss of the datagram; a pending dial is cancelled by a notice about exactly its remote node and service. -/
+connection as loss of the datagram, and `forwardMessage` reports a next hop whose connection has gone or is
+being torn down with exactly that error; a pending dial is cancelled by a notice about exactly its remote node and service. -/
 theorem C03_facts :
     Receptor.Facts.bridge_loop = "read;err:shouldClose;n>0:write(buf[:n]),short->shouldClose;shouldClose:close(c2),return"
     ∧ Receptor.Facts.bridge_conns = "two-halves;wait-both"
@@ -23,6 +24,7 @@ theorem C03_facts :
     ∧ Receptor.Facts.stream_close = "Close:stream-write-side;CloseConnection:connection"
     ∧ Receptor.Facts.stream_readfrom_copy = "copy(p, m.Data)"
     ∧ Receptor.Facts.stream_quic_adapter = "transports:2;lost-not-fatal:errors.Is(err, ErrNoConnectionToNextHop)"
+    ∧ Receptor.Facts.stream_link_gone_errors = "sentinel;wraps-sentinel"
     ∧ Receptor.Facts.unreach_dial_cancel = "msg.Problem == ProblemServiceUnknown && msg.ToNode == remoteAddr.node && msg.ToService == remoteAddr.service" := by
   decide +kernel
 
